@@ -41,7 +41,7 @@ PROPS = {
                       "printing side rule R21 (print!/println! with a literal format string -> writes to a ghost stdout "
                       "log threaded through hash_one_input / write_hex_output / write_raw_output) and the assumed "
                       "contracts of hash_path, write_raw_output, OutputReader::fill, hex::encode, Display of String/&str",
-        "units": {"quick": [v("b3sum")], "thorough": []},
+        "units": {"quick": [v("b3sum")], "thorough": [s("C13")]},
         "cone": [r"^crate::(parse_check_line|unescape|hex_half_byte|check_for_invalid_characters|"
                  r"split_untagged_check_line|split_tagged_check_line|filepath_to_string|hash_one_input|write_hex_output|"
                  r"Args::(raw|tag|no_names|len))$", r"^\(contract\)"],
